@@ -314,6 +314,10 @@ class Exec:
             v = self.ev(n.operand)
             if isinstance(n.op, ast.USub):
                 if isinstance(v, IntV): return IntV(-v.t)
+                if isinstance(v, ObjV):                       # -x -> x.__neg__()
+                    cal = self.callees.get('UTPM.__neg__')
+                    if cal is None or not hasattr(cal, 'apply_functional'): raise Undecided('no contract for UTPM.__neg__')
+                    return cal.apply_functional(self, {'self': v}, 'UTPM.__neg__')
                 return self.scale_neg(v)
             if isinstance(n.op, ast.Not):
                 b = self.truth(v)
@@ -397,6 +401,7 @@ class Exec:
         if n.attr == 'T': raise Undecided('.T')
         base = self.ev(n.value)
         if isinstance(base, TypeV) and base.name == 'UTPM': return ('clsmethod', n.attr)
+        if isinstance(base, tuple) and base and base[0] == 'ctor': return ('clsmethod', n.attr)          # self.__class__.neg
         if isinstance(base, NdV) and n.attr in ('reshape', 'copy', 'flatten'): return ('arrmethod', base, n.attr)
         if isinstance(base, ModV): return self.modattr(base, n.attr)
         if isinstance(base, ObjV):
@@ -433,8 +438,21 @@ class Exec:
         if isinstance(op, ast.Pow): return z3.Function('pw', R, R, R)(a, b)
         raise Undecided('cell operator ' + type(op).__name__)
 
+    OPNAMES = {ast.Add: 'add', ast.Sub: 'sub', ast.Mult: 'mul', ast.Div: 'truediv'}
+    def obj_binop(self, op, l, r):
+        """Python's operator dispatch on Taylor-polynomial objects: x op y -> x.__op__(y); c op x -> x.__rop__(c).  The operator methods enter
+        through their CONTRACTS (a new object whose coefficients satisfy the postcondition; operands untouched)."""
+        nm = self.OPNAMES.get(type(op))
+        if nm is None: raise Undecided('operator %s on polynomial objects' % type(op).__name__)
+        if isinstance(l, ObjV) and isinstance(r, ObjV): key, args = 'UTPM.__%s__[UTPM]' % nm, {'self': l, 'rhs': r}
+        elif isinstance(l, ObjV): key, args = 'UTPM.__%s__[const]' % nm, {'self': l, 'rhs': r}
+        else: key, args = 'UTPM.__r%s__[const]' % nm, {'self': r, 'rhs': l}
+        cal = self.callees.get(key)
+        if cal is None or not hasattr(cal, 'apply_functional'): raise Undecided('no contract for %s' % key)
+        return cal.apply_functional(self, args, key)
     def binop(self, op, l, r):
         st = self.st
+        if isinstance(l, ObjV) or isinstance(r, ObjV): return self.obj_binop(op, l, r)
         if isinstance(l, tuple) and isinstance(r, tuple) and isinstance(op, ast.Add):
             if (l and l[0] == 'shape') or (r and r[0] == 'shape'): return ('shape', (r[1] if r and r[0] == 'shape' else l[1]))
             return l + r
@@ -725,6 +743,14 @@ class Exec:
         f = self.ev(n.func)
         if isinstance(f, tuple) and f and f[0] == 'arrmethod' and isinstance(f[1], NdV): return f[1]          # reshape/copy of a constant array
         if isinstance(f, tuple) and f and f[0] == 'clsmethod':
+            cal = self.callees.get('UTPM.' + f[1])
+            if not f[1].startswith('_') and cal is not None and hasattr(cal.c, 'fvalue'):      # public functional classmethod (UTPM.neg(x))
+                names_, _ = cal.sig(); args_ = {}
+                for nm_, a_ in zip(names_, n.args): args_[nm_] = self.ev(a_)
+                for k_, v_ in kw.items():
+                    if v_ is not None and not (isinstance(v_, ast.Constant) and v_.value is None): args_[k_] = self.ev(v_)
+                args_ = {k_: v_ for k_, v_ in args_.items() if v_ is not None}
+                return cal.apply_functional(self, args_, 'UTPM.' + f[1])
             return self.call_contract(f[1], n, kw)
         if isinstance(f, FuncV):
             simple = f.name.split('.')[-1]
